@@ -78,13 +78,23 @@ Theorem C02_errors_are_exactly_the_specified_origins op root d o :
             (forall p, In p o -> exists e, In e (r_errors r) /\ g_path e = Some p) /\
             (forall e, In e (r_errors r) -> exists p, g_path e = Some p /\ In p o).
 Proof.
-  intros Hc Hk Hs. destruct (execute_operation_accounts sch doc vs U cfg Hc op root d o Hk Hs) as (r & Hr & Hd & Hp).
+  intros Hc Hk Hs. destruct (execute_operation_accounts_exact sch doc vs U cfg op root d o Hc Hk Hs) as (r & Hr & Hd & Hp).
   exists r. split; [exact Hr|]. split; [exact Hd|]. split.
   - intros p Hin. pose proof (proj2 (Hp (Some p)) (in_map Some _ _ Hin)) as Hm.
     apply in_map_iff in Hm. destruct Hm as (e & He & Hine). exists e. split; assumption.
   - intros e Hin. pose proof (proj1 (Hp (g_path e)) (in_map g_path _ _ Hin)) as Hm.
     apply in_map_iff in Hm. destruct Hm as (p & Hpe & Hinp). exists p. split; [now symmetry|assumption].
 Qed.
+
+(* mutations and sequentially awaited siblings included (every operation kind, every configuration):
+   the data is the specification's and no entry of `errors` points anywhere but at one of the
+   specification's failure origins.  (The converse is not claimed there: once a non-null field of a
+   serial chain has failed the later fields are never started, so their would-be origins are absent.) *)
+Theorem C02_no_error_points_elsewhere op root d o :
+  spec_execute_operation sch doc vs U op root = Some (d, o) ->
+  exists r, execute_operation sch doc vs U cfg op root = OVal r /\ r_data r = d /\
+            forall e, In e (r_errors r) -> exists p, g_path e = Some p /\ In p o.
+Proof. exact (execute_operation_accounts_incl sch doc vs U cfg op root d o). Qed.
 
 End C02.
 
@@ -125,3 +135,4 @@ Print Assumptions C02_failed_non_null_field_raises.
 Print Assumptions C02_execute_never_raises.
 Print Assumptions C02_null_data_has_error.
 Print Assumptions C02_errors_are_exactly_the_specified_origins.
+Print Assumptions C02_no_error_points_elsewhere.
